@@ -267,6 +267,13 @@ func genC12(t *rapid.T) C12Case {
 			}
 		}
 		c.Base = rapid.SampledFrom([]int{0, 0, 10, 16, 2, 8}).Draw(t, "base")
+		if rapid.IntRange(0, 2).Draw(t, "otherentry") == 0 {
+			// the same strings through the entry points that take no base (base 0): they must accept exactly what
+			// Parse(s, 0) and math/big accept (an entry point with a shortcut of its own for "Inf" is where a case-
+			// insensitive comparison would show)
+			c.Entry = rapid.SampledFrom([]string{"setstring", "unmarshaltext", "unmarshaltext", "parsedecimal"}).Draw(t, "hentry")
+			c.Base = 0
+		}
 	}
 	return c
 }
